@@ -420,6 +420,29 @@ pub fn exec_med(w: &mut World, op: &Op, rest: &str, env: &mut Env) {
                 }
             }
         }
+        // ---------------- floats with extreme exponent / precision through the binary media (cheap: no arithmetic)
+        "bigexp" => {
+            let sig = IBig::from(op.a as i32 * 2 + 1) * if op.b & 1 == 1 { Sign::Negative } else { Sign::Positive };
+            let exp = op.n.clamp(isize::MIN as i64 / 2, isize::MAX as i64 / 2) as isize;
+            let prec = op.m.unsigned_abs() as usize;
+            let medium = 1 + (op.form & 255) % 2;
+            macro_rules! big {
+                ($T:ty, $pool:ident, $P:expr) => {{
+                    let x: $T = <$T>::from_parts(sig, exp).with_precision(prec).value();
+                    let o2 = Op { form: medium, m: 0, ..Op::new("med.serde") };
+                    if let Some(v) = serde_step(&x, &o2, env, stringify!($T), same_f, canon_fbig, |v| text_fbig(v)) {
+                        // keep pool exponents tame: only the verdict matters here
+                        drop(v);
+                    }
+                    let _ = $P;
+                }};
+            }
+            if pool % 2 == 0 {
+                big!(FBin, f, Pool::F)
+            } else {
+                big!(FDec, d, Pool::D)
+            }
+        }
         // ---------------- byte media of the integers (to_*_bytes / from_*_bytes) with faults
         "bytes" => {
             let kind = op.m.rem_euclid(8);
